@@ -224,11 +224,11 @@ _reg(Tool("reduce", "agg", (1, 1),
 _reg(Tool("nlargest", "agg", (1, 1),
           lambda S, F, P, V: a.nlargest(S[0], P["n"], key=F.get("key")),
           lambda S, F, P, V: heapq.nlargest(P["n"], S[0], key=F.get("key")),
-          optional_roles=(("key", "table"),), profiles=(I, N, 'grumpy-order', "unorderable"), window=None))
+          optional_roles=(("key", "table"),), profiles=(I, N, 'grumpy-order', "unorderable1"), window=None))
 _reg(Tool("nsmallest", "agg", (1, 1),
           lambda S, F, P, V: a.nsmallest(S[0], P["n"], key=F.get("key")),
           lambda S, F, P, V: heapq.nsmallest(P["n"], S[0], key=F.get("key")),
-          optional_roles=(("key", "table"),), profiles=(I, N, 'grumpy-order', "unorderable"), window=None))
+          optional_roles=(("key", "table"),), profiles=(I, N, 'grumpy-order', "unorderable1"), window=None))
 
 ITER_TOOLS = [t.name for t in TOOLS.values() if t.kind == "iter"]
 AGG_TOOLS = [t.name for t in TOOLS.values() if t.kind == "agg"]
